@@ -45,7 +45,7 @@ type topo struct {
 	// are legal placements; PD itself does not prefer one): "remote" moves it away from the PD
 	// leader, "colocated" moves it onto the PD leader, "" leaves it where the election put it.
 	Before string
-	// Ahead: before the late dc joins, the administrator moves the TSO forward by 15 s through
+	// Ahead: before the late dc joins, the administrator moves the TSO forward by 8 s through
 	// Handler.ResetTS (the supported reset-ts operation), so that the running allocators are ahead
 	// of the wall clock - the situation clock differences between datacenters produce.
 	Ahead bool
@@ -53,6 +53,14 @@ type topo struct {
 	// allocator is first pushed ahead by a different lead (dc clocks ahead of the PD leader's by
 	// different offsets), then local / global / local timestamps are taken.
 	Skewed bool
+	// Events: during the concurrent rounds other entry points run against the traffic: PD leader
+	// resignation, reset of a local allocator on its leader (what pd does when a window update
+	// fails), the admin reset-ts (+2 s), and stop + restart of a member.
+	Events bool
+	// Populated: the cluster's etcd root holds a few thousand unrelated keys around the TSO keys.
+	Populated bool
+	// PDChangeAtJoin: the PD leader resigns while the late dc joins.
+	PDChangeAtJoin bool
 }
 
 // class is the coarse kind of history the cluster produced; it is part of every violation key.
@@ -71,17 +79,23 @@ func (c *cluster) class() string {
 }
 
 var topologies = map[string]topo{
-	"3dc":      {Name: "3dc", Zones: []string{"dc-1", "dc-2", "dc-3"}, Skewed: true},
-	"2dc":      {Name: "2dc", Zones: []string{"dc-1", "dc-1", "dc-2"}, Skewed: true},
-	"1dc":      {Name: "1dc", Zones: []string{"dc-1", "dc-1", "dc-1"}},
-	"3dc-move": {Name: "3dc-move", Zones: []string{"dc-1", "dc-2", "dc-3"}, Transfer: true},
-	"2dc-move": {Name: "2dc-move", Zones: []string{"dc-1", "dc-1", "dc-2"}, Transfer: true},
-	"late-dc":  {Name: "late-dc", Zones: []string{"dc-1", "dc-1", "dc-2"}, Late: []bool{false, false, true}},
+	"3dc": {Name: "3dc", Zones: []string{"dc-1", "dc-2", "dc-3"}, Skewed: true, Events: true},
+	// dc names that are prefixes of each other (the per-dc etcd paths are read by prefix)
+	"3dc-prefix": {Name: "3dc-prefix", Zones: []string{"dc-1", "dc-10", "dc-100"}, Skewed: true, Events: true, Populated: true},
+	"2dc":        {Name: "2dc", Zones: []string{"dc-1", "dc-1", "dc-2"}, Skewed: true, Events: true, Populated: true},
+	"1dc":        {Name: "1dc", Zones: []string{"dc-1", "dc-1", "dc-1"}, Events: true},
+	"3dc-move":   {Name: "3dc-move", Zones: []string{"dc-1", "dc-2", "dc-3"}, Transfer: true},
+	"2dc-move":   {Name: "2dc-move", Zones: []string{"dc-1", "dc-1", "dc-2"}, Transfer: true},
+	"late-dc":    {Name: "late-dc", Zones: []string{"dc-1", "dc-1", "dc-2"}, Late: []bool{false, false, true}},
 	"late-dc-remote": {Name: "late-dc-remote", Zones: []string{"dc-1", "dc-1", "dc-2"}, Late: []bool{false, false, true},
 		Before: "remote", Ahead: true},
 	"late-dc-colocated": {Name: "late-dc-colocated", Zones: []string{"dc-1", "dc-1", "dc-2"}, Late: []bool{false, false, true},
 		Before: "colocated", Ahead: true},
 	"late-3rd": {Name: "late-3rd", Zones: []string{"dc-1", "dc-2", "dc-3"}, Late: []bool{false, false, true}},
+	"late-dc-pdchange": {Name: "late-dc-pdchange", Zones: []string{"dc-1", "dc-1", "dc-2"}, Late: []bool{false, false, true},
+		PDChangeAtJoin: true},
+	"late-3rd-pdchange": {Name: "late-3rd-pdchange", Zones: []string{"dc-1", "dc-2", "dc-3"}, Late: []bool{false, false, true},
+		PDChangeAtJoin: true},
 }
 
 // op is one recorded request.
@@ -126,11 +140,16 @@ type cluster struct {
 	prefix   string
 	dcPrefix string
 
+	t0      time.Time
+	cli     *clientv3.Client // the harness's own etcd client (all members as endpoints)
+	stopped map[int]bool     // members the harness has stopped (or is stopping)
+
 	joinClass string // "pd-leader-leads-no-allocator" | "pd-leader-leads-an-allocator", fixed when the late member starts
 }
 
 func (c *cluster) note(format string, a ...interface{}) {
-	s := fmt.Sprintf("t%d ", hist.Now()) + fmt.Sprintf(format, a...)
+	// the wall-clock offset is for reading witnesses only
+	s := fmt.Sprintf("t%d +%.1fs ", hist.Now(), time.Since(c.t0).Seconds()) + fmt.Sprintf(format, a...)
 	c.mu.Lock()
 	c.notes = append(c.notes, s)
 	c.mu.Unlock()
@@ -245,7 +264,7 @@ func startCluster(r *ev.Run, t topo) *cluster {
 			cfg.Labels[config.ZoneLabel] = t.Zones[i]
 			cfg.LeaderLease = 8 // the machine is shared: keep the PD leadership stable under load
 		})
-		c = &cluster{r: r, t: t, cfgs: cfgs, ms: make([]*srv.Member, 3), conns: map[int]*grpc.ClientConn{}}
+		c = &cluster{r: r, t: t, cfgs: cfgs, ms: make([]*srv.Member, 3), conns: map[int]*grpc.ClientConn{}, stopped: map[int]bool{}, t0: time.Now()}
 		var first []*config.Config
 		var idx []int
 		for i := range cfgs {
@@ -291,6 +310,19 @@ func (c *cluster) startLate() bool {
 			c.ms[i] = m
 			c.mu.Unlock()
 			c.note("member m%d (zone %s) started late", i, c.t.Zones[i])
+			// The new member learns the dc-locations from its own dc-location check. The one it spawns
+			// at start-up returns at once when it has not seen the PD leader yet, and the next one is
+			// due a minute later; like the repository's tests, run the new member's check explicitly
+			// (only the new member's: what the old members know is left alone).
+			go func(m *srv.Member) {
+				for k := 0; k < 8; k++ {
+					time.Sleep(500 * time.Millisecond)
+					if m.Srv.IsClosed() {
+						return
+					}
+					m.Srv.GetTSOAllocatorManager().ClusterDCLocationChecker()
+				}
+			}(m)
 		}
 	}
 	return true
@@ -300,6 +332,9 @@ func (c *cluster) close() {
 	if c.wcancel != nil {
 		c.wcancel()
 		<-c.wdone
+	}
+	if c.cli != nil {
+		c.cli.Close()
 	}
 	c.mu.Lock()
 	for _, cc := range c.conns {
@@ -334,7 +369,16 @@ func (c *cluster) startWatch() {
 	ctx, cancel := context.WithCancel(context.Background())
 	c.wcancel = cancel
 	c.wdone = make(chan struct{})
-	cli := m0.Srv.GetClient()
+	var eps []string
+	for _, cfg := range c.cfgs {
+		eps = append(eps, cfg.ClientUrls)
+	}
+	cli, err := clientv3.New(clientv3.Config{Endpoints: eps, DialTimeout: 10 * time.Second})
+	if err != nil {
+		cli = m0.Srv.GetClient()
+	} else {
+		c.cli = cli
+	}
 	ch1 := cli.Watch(ctx, c.prefix, clientv3.WithPrefix(), clientv3.WithRev(1))
 	ch2 := cli.Watch(ctx, c.dcPrefix, clientv3.WithPrefix(), clientv3.WithRev(1))
 	go func() {
@@ -385,8 +429,12 @@ func (c *cluster) settleWatch() bool {
 			}
 		}
 	}
+	cli := c.cli
+	if cli == nil {
+		cli = m.Srv.GetClient()
+	}
 	ctx, cancel := context.WithTimeout(context.Background(), 20*time.Second)
-	resp, err := m.Srv.GetClient().Get(ctx, c.prefix, clientv3.WithPrefix())
+	resp, err := cli.Get(ctx, c.prefix, clientv3.WithPrefix())
 	cancel()
 	if err != nil {
 		return false
@@ -470,6 +518,13 @@ func (q *requester) do(dc string, count uint32, mode string, round int, force in
 				if p := recover(); p != nil {
 					o.Ret = hist.Tick()
 					o.Err = fmt.Sprintf("panic: %v", p)
+					c.mu.RLock()
+					gone := c.stopped[ti]
+					c.mu.RUnlock()
+					if gone { // a direct call into the objects of a server the harness has closed
+						c.r.Count("panics_on_stopped_member_not_judged", 1)
+						return
+					}
 					c.r.Violation("panic-in-tso-request:"+c.class(), fmt.Sprintf("HandleTSORequest(%s,%d) panicked: %v", dc, count, p),
 						map[string]interface{}{"op": o, "notes": c.notesCopy()})
 				}
@@ -711,9 +766,9 @@ func (c *cluster) beforeJoin(rng *rand.Rand, dcs []string) bool {
 			skipped(c.r, "topology_cut_short", t.Name, "no global timestamp before the administrative reset")
 			return false
 		}
-		target := o.Physical + 15000
+		target := o.Physical + 8000
 		err := m.Srv.GetHandler().ResetTS(tsoutil.GenerateTS(tsoutil.GenerateTimestamp(time.Unix(0, target*int64(time.Millisecond)), 0)))
-		c.note("admin reset-ts to physical %d (15 s ahead) err=%v", target, err)
+		c.note("admin reset-ts to physical %d (8 s ahead) err=%v", target, err)
 		if err != nil {
 			c.r.Count("admin_reset_refused", 1)
 		} else {
@@ -736,6 +791,158 @@ func (c *cluster) beforeJoin(rng *rand.Rand, dcs []string) bool {
 	}
 	c.note("late dc is about to join: %s (%s)", c.placement(), c.joinClass)
 	return true
+}
+
+// populate stores n unrelated keys of inert kinds below the cluster's etcd root, before, between and
+// after the keys the TSO code reads (a cluster that has been in use has thousands of them).
+func (c *cluster) populate(n int) {
+	cli := c.cli
+	if cli == nil {
+		return
+	}
+	root := strings.TrimSuffix(c.prefix, "local-tso-suffix/")
+	kinds := []string{"aa/%05d", "gc/safe_point/service/svc-%d", "m/%d", "status/x-%d", "tidb/%d", "zz/%d"}
+	var ops []clientv3.Op
+	flush := func() {
+		if len(ops) > 0 {
+			ctx, cancel := context.WithTimeout(context.Background(), 20*time.Second)
+			if _, err := cli.Txn(ctx).Then(ops...).Commit(); err == nil {
+				c.r.Count("populated_keys", int64(len(ops)))
+			}
+			cancel()
+			ops = ops[:0]
+		}
+	}
+	for i := 0; i < n; i++ {
+		ops = append(ops, clientv3.OpPut(root+fmt.Sprintf(kinds[i%len(kinds)], i), "populated-by-the-harness"))
+		if len(ops) == 100 {
+			flush()
+		}
+	}
+	flush()
+}
+
+const (
+	evPDTransfer  = "pd-transfer"
+	evPDResign    = "pd-resign"
+	evAllocReset  = "alloc-reset"
+	evAdminReset  = "admin-reset"
+	evMemberCycle = "member-restart"
+)
+
+// eventPlan fixes, from the seed, which rounds run which event.
+func eventPlan(rng *rand.Rand, rounds int, thorough bool) map[int]string {
+	plan := map[int]string{}
+	kinds := []string{evPDTransfer, evAllocReset, evAdminReset, evMemberCycle, evAllocReset, evPDResign}
+	rng.Shuffle(len(kinds), func(i, j int) { kinds[i], kinds[j] = kinds[j], kinds[i] })
+	step, restarts, k := 4, 0, 0
+	if thorough {
+		step = 5
+	}
+	for rd := 3; rd < rounds; rd += step {
+		kind := kinds[k%len(kinds)]
+		k++
+		if kind == evMemberCycle {
+			if restarts >= 3 {
+				kind = evAllocReset
+			} else {
+				restarts++
+			}
+		}
+		plan[rd] = kind
+		if kind == evAdminReset && rd+1 < rounds {
+			plan[rd+1] = evAllocReset // an allocator leader change while the TSO is ahead of the wall clock
+		}
+	}
+	return plan
+}
+
+// event runs one event against the traffic of the current round.
+func (c *cluster) event(kind string, rng *rand.Rand, dcs []string) {
+	time.Sleep(time.Duration(5+rng.Intn(25)) * time.Millisecond)
+	switch kind {
+	case evPDResign:
+		if i, m := c.serving(globalDC); m != nil {
+			m.Srv.GetMember().ResetLeader()
+			c.note("event: PD leader m%d resigned", i)
+			c.r.Count("events_pd_resign", 1)
+		}
+	case evPDTransfer:
+		// what the /leader/resign API does: the etcd leadership moves to another member and the PD
+		// leadership follows it
+		if i, m := c.serving(globalDC); m != nil {
+			ctx, cancel := context.WithTimeout(context.Background(), 10*time.Second)
+			err := m.Srv.GetMember().ResignEtcdLeader(ctx, m.Srv.Name(), "")
+			cancel()
+			c.note("event: PD leader m%d hands the etcd leadership over (err=%v)", i, err)
+			c.r.Count("events_pd_transfer", 1)
+		}
+	case evAllocReset:
+		dc := dcs[rng.Intn(len(dcs))]
+		if i, m := c.serving(dc); m != nil {
+			m.Srv.GetTSOAllocatorManager().ResetAllocatorGroup(dc)
+			c.note("event: allocator of %s reset on its leader m%d", dc, i)
+			c.r.Count("events_alloc_reset", 1)
+		}
+	case evAdminReset:
+		q := &requester{c: c, id: 650, streams: map[string]pdpb.PD_TsoClient{}}
+		o := q.do(globalDC, 1, modeDirect, -3, -1)
+		q.close()
+		if _, m := c.serving(globalDC); m != nil && o.Err == "" {
+			target := o.Physical + 2000
+			err := m.Srv.GetHandler().ResetTS(tsoutil.GenerateTS(tsoutil.GenerateTimestamp(time.Unix(0, target*int64(time.Millisecond)), 0)))
+			c.note("event: admin reset-ts +2 s err=%v", err)
+			c.r.Count("events_admin_reset", 1)
+			// a global request carries the new time to the local allocators; then one of them changes
+			// its leader while it is ahead of the wall clock
+			q2 := &requester{c: c, id: 651, streams: map[string]pdpb.PD_TsoClient{}}
+			q2.do(globalDC, 1, modeDirect, -3, -1)
+			q2.close()
+			c.event(evAllocReset, rng, dcs)
+		}
+	case evMemberCycle:
+		c.cycleMember(rng.Intn(len(c.cfgs)), rng)
+	}
+}
+
+// cycleMember stops member i (orderly shutdown: its RPCs fail, its leaderships are given up) and
+// starts it again on the same data directory.
+func (c *cluster) cycleMember(i int, rng *rand.Rand) {
+	c.mu.Lock()
+	m := c.ms[i]
+	if m == nil {
+		c.mu.Unlock()
+		return
+	}
+	c.stopped[i] = true
+	c.ms[i] = nil
+	if cc := c.conns[i]; cc != nil {
+		cc.Close()
+		delete(c.conns, i)
+	}
+	c.mu.Unlock()
+	c.note("event: member m%d stops", i)
+	m.Stop()
+	time.Sleep(time.Duration(100+rng.Intn(300)) * time.Millisecond)
+	var nm *srv.Member
+	var err error
+	for k := 0; k < 4; k++ {
+		if nm, err = srv.Start(c.cfgs[i]); err == nil {
+			break
+		}
+		time.Sleep(time.Second)
+	}
+	if err != nil {
+		c.note("event: member m%d did not come back: %v", i, err)
+		c.r.Count("events_member_restart_failed", 1)
+		return
+	}
+	c.mu.Lock()
+	c.ms[i] = nm
+	delete(c.stopped, i)
+	c.mu.Unlock()
+	c.note("event: member m%d is back", i)
+	c.r.Count("events_member_restart", 1)
 }
 
 // spread puts the local allocator leaders of different dcs on different members (each on a member
@@ -840,6 +1047,29 @@ func (c *cluster) skewedRounds(rng *rand.Rand, dcs []string, n int) {
 		r.Distinct(shape)
 		r.Count("skewed_rounds", 1)
 	}
+	// Aftermath: the allocators are now minutes ahead of the wall clock. Leader changes in that state
+	// must continue above what has been handed out (a new leader only has the stored window).
+	kinds := []string{evAllocReset, evPDTransfer}
+	if r.Thorough() {
+		kinds = append(kinds, evMemberCycle, evAllocReset)
+	}
+	for k, kind := range kinds {
+		c.event(kind, rng, dcs)
+		if !c.waitServing(dcs, 90*time.Second) {
+			skipped(r, "topology_cut_short", c.t.Name, "allocators did not all serve again within 90 s after %s in the aftermath (placement %s)", kind, c.placement())
+			return
+		}
+		for _, dc := range dcs {
+			q.do(dc, 1, modeDirect, 2000+k, -1)
+		}
+		q.do(globalDC, 1, modeDirect, 2000+k, -1)
+		for _, dc := range dcs {
+			q.do(dc, 10, modeGRPC, 2000+k, -1)
+		}
+		r.Eval(1)
+		r.Distinct(fmt.Sprintf("%s|aftermath|%d|%s", c.t.Name, k, kind))
+		r.Count("aftermath_events", 1)
+	}
 }
 
 // prologue is the quiet sequential phase (the shape of the repository's own test): one requester
@@ -943,6 +1173,9 @@ func runTopology(r *ev.Run, t topo, rng *rand.Rand, rounds int) {
 	defer c.close()
 	r.Count("clusters_started", 1)
 	dcs := c.dcs(false)
+	if t.Populated {
+		c.populate(r.Pick(2500, 5000))
+	}
 	if !c.waitServing(dcs, 150*time.Second) {
 		skipped(r, "topology_skipped_setup_timeout", t.Name, "allocators %v + global did not all serve within 150 s (placement %s)", dcs, c.placement())
 		c.judgeSuffixOnly() // the suffix clauses do not depend on anybody serving
@@ -950,6 +1183,10 @@ func runTopology(r *ev.Run, t topo, rng *rand.Rand, rounds int) {
 	}
 	c.note("serving: %s", c.placement())
 	c.prologue(rng, dcs)
+	events := map[int]string{}
+	if t.Events {
+		events = eventPlan(rng, rounds, r.Thorough())
+	}
 	lateAt := -1
 	if t.Late != nil {
 		lateAt = 2 + rng.Intn(3)
@@ -962,7 +1199,22 @@ func runTopology(r *ev.Run, t topo, rng *rand.Rand, rounds int) {
 			}
 			// the late member joins while a round is running
 			ok := true
-			shapes = append(shapes, c.round(rd, rng, dcs, func() { ok = c.startLate() }))
+			pdDelay := time.Duration(300+rng.Intn(1500)) * time.Millisecond
+			pdRng := rand.New(rand.NewSource(rng.Int63()))
+			oldDCs := dcs
+			shapes = append(shapes, c.round(rd, rng, dcs, func() {
+				var wg sync.WaitGroup
+				if t.PDChangeAtJoin {
+					wg.Add(1)
+					go func() {
+						defer wg.Done()
+						time.Sleep(pdDelay)
+						c.event(evPDResign, pdRng, oldDCs)
+					}()
+				}
+				ok = c.startLate()
+				wg.Wait()
+			}))
 			r.Eval(1)
 			if !ok {
 				break
@@ -977,7 +1229,10 @@ func runTopology(r *ev.Run, t topo, rng *rand.Rand, rounds int) {
 			continue
 		}
 		var during func()
-		if t.Transfer && rd%4 == 1 {
+		if kind, ok := events[rd]; ok {
+			erng := rand.New(rand.NewSource(rng.Int63()))
+			during = func() { c.event(kind, erng, dcs) }
+		} else if t.Transfer && rd%4 == 1 {
 			dc := dcs[rng.Intn(len(dcs))]
 			mrng := rand.New(rand.NewSource(rng.Int63()))
 			during = func() {
@@ -996,12 +1251,19 @@ func runTopology(r *ev.Run, t topo, rng *rand.Rand, rounds int) {
 			// give a pending move the chance to finish before the next burst
 			c.waitServing(dcs, 30*time.Second)
 		}
+		if kind, ok := events[rd]; ok {
+			shapes[len(shapes)-1] += "|" + kind
+			if !c.waitServing(dcs, 90*time.Second) {
+				skipped(r, "topology_cut_short", t.Name, "allocators did not all serve again within 90 s after %s (placement %s)", kind, c.placement())
+				break
+			}
+		}
 	}
 	for i, s := range shapes {
 		r.Distinct(fmt.Sprintf("%s|%d|%s", t.Name, i, s))
 	}
 	if t.Skewed && len(dcs) >= 2 {
-		c.skewedRounds(rng, dcs, r.Pick(36, 60))
+		c.skewedRounds(rng, dcs, r.Pick(30, 60))
 	}
 	if !c.settleWatch() {
 		skipped(r, "topology_skipped_watch_timeout", t.Name, "the suffix watch did not catch up with etcd; history not judged")
@@ -1013,7 +1275,7 @@ func runTopology(r *ev.Run, t topo, rng *rand.Rand, rounds int) {
 
 func main() {
 	r := ev.New("C05", "exploration")
-	r.Rule("per topology (3 real servers, local TSO on, zone labels): rounds of {4-8 requester goroutines per dc x 5-12 requests, 1-4 global requesters x 3-7 requests, one chain worker local->global->local}, counts from {1,10,1000,2^15} (every 5th round mostly 2^15), transport per requester from {HandleTSORequest on the serving member, gRPC Tso stream, forwarded gRPC Tso stream}, 4% of requests to a random member; each topology starts with a quiet sequential phase global/local with equal counts; topologies: 3 dcs x 1 member, 2 dcs 2+1, 1 dc, a dc joining later (4 variants: placement of the running allocator relative to the PD leader forced or free, allocators moved 15 s ahead of the wall clock by the admin reset-ts operation or not), allocator moves; the static 3-dc and 2-dc topologies end with 36 (thorough 60) sequential skewed-dc rounds: allocator leaders spread over different members, every local allocator pushed ahead by a different lead (1/2/4 s, rotating) through SetTSO, then local x dcs, global, local x dcs; distinct = (topology, round index, goroutine counts per dc, round seed) resp. (topology, skewed round index, lead per dc). Add-on: gated schedules of suffix assignment with a PD-leader change (old leader parked before its create-if-absent txn; release order by seed); distinct = (keys the two leaders were about to create, release order)")
+	r.Rule("per topology (3 real servers, local TSO on, zone labels): rounds of {4-8 requester goroutines per dc x 5-12 requests, 1-4 global requesters x 3-7 requests, one chain worker local->global->local}, counts from {1,10,1000,2^15} (every 5th round mostly 2^15), transport per requester from {HandleTSORequest on the serving member, gRPC Tso stream, forwarded gRPC Tso stream}, 4% of requests to a random member; each topology starts with a quiet sequential phase global/local with equal counts; topologies: 3 dcs x 1 member, 2 dcs 2+1, 1 dc, a dc joining later (4 variants: placement of the running allocator relative to the PD leader forced or free, allocators moved 8 s ahead of the wall clock by the admin reset-ts operation or not), allocator moves; the static 3-dc and 2-dc topologies end with 30 (thorough 60) sequential skewed-dc rounds: allocator leaders spread over different members, every local allocator pushed ahead by a different lead (1/2/4 s, rotating) through SetTSO, then local x dcs, global, local x dcs, and an aftermath of allocator reset / PD leader transfer (thorough: + member restart) while the TSO is minutes ahead of the wall clock; during the concurrent rounds of the static topologies every 4th (thorough 5th) round runs one event from {PD leader transfer through the etcd leadership, PD leader resign, local allocator reset on its leader, admin reset-ts +2 s followed by an allocator reset, member stop + restart}; one static topology has dc names that are prefixes of each other and 2500 unrelated keys in its etcd root; distinct = (topology, round index, goroutine counts per dc, round seed) resp. (topology, skewed round index, lead per dc). Add-on: gated schedules of suffix assignment with a PD-leader change (old leader parked before its create-if-absent txn; release order by seed); distinct = (keys the two leaders were about to create, release order); and 15-member worlds (dc-location upper limit, prefix-related dc names, populated root) whose suffixes are assigned in two waves by two successive PD leaders")
 	r.Assume("the logical clock (lib/hist) orders call/return events of all requesters of the process; a suffix is taken as stored when the etcd watch has delivered it before the request's call tick (under-approximation)")
 	r.Assume("errors grant nothing and impose no constraint; clock failpoints are not used; all members run in one process on one wall clock")
 	rng := rand.New(rand.NewSource(r.ShardSeed()))
@@ -1021,14 +1283,17 @@ func main() {
 
 	var plan []string
 	if !r.Thorough() {
-		plan = []string{"3dc", "late-dc-remote", "late-dc-colocated"}
+		plan = []string{"3dc-prefix", "late-dc-remote", "late-dc-colocated"}
 	} else {
-		all := []string{"3dc", "2dc", "1dc", "3dc-move", "2dc-move", "late-dc", "late-dc-remote", "late-dc-colocated", "late-3rd"}
+		all := []string{"3dc", "2dc", "1dc", "3dc-move", "2dc-move", "late-dc", "late-dc-remote", "late-dc-colocated", "late-3rd", "3dc-prefix", "late-3rd-pdchange", "late-dc-pdchange"}
 		if r.Shards < 4 {
 			plan = all
 		} else {
 			// every topology is run by two shards (with different seeds)
-			plan = []string{all[r.Shard%len(all)], all[(r.Shard+4)%len(all)]}
+			plan = []string{all[r.Shard%len(all)], all[(r.Shard+5)%len(all)]}
+			if r.Shard+8 < len(all) {
+				plan = append(plan, all[r.Shard+8])
+			}
 		}
 	}
 	if only := os.Getenv("VERIF_C05_ONLY"); only != "" { // development aid: run a chosen list of topologies ("-" = none)
@@ -1041,13 +1306,13 @@ func main() {
 	}
 	for _, name := range plan {
 		t := topologies[name]
-		rounds := r.Pick(30, 150)
+		rounds := r.Pick(24, 150)
 		if t.Late != nil && !r.Thorough() {
-			rounds = 10
+			rounds = 8
 		}
 		runTopology(r, t, rng, rounds)
 	}
-	suffixAddon(r, rng, r.Pick(40, 80))
+	suffixAddon(r, rng, r.Pick(30, 80))
 	r.Floor(int64(r.Pick(30, 100)))
 	r.Finish()
 }
